@@ -177,7 +177,7 @@ type Publisher struct {
 	Pub       *ipnisync.Publisher
 	HostPort  string
 	Addr      multiaddr.Multiaddr
-	Alias     multiaddr.Multiaddr
+	Alias, Dead multiaddr.Multiaddr
 	Discovery bool        // serve /.well-known/libp2p/protocols (libp2p-HTTP mode)
 	Chain     []cid.Cid   // ads, oldest first
 	LinkProto cidlink.LinkPrototype
@@ -231,11 +231,25 @@ func (w *World) AddPublisher(keyIdx int, discovery bool, handlerPath string) *Pu
 
 // Info returns the AddrInfo to sync this publisher with.
 func (p *Publisher) Info() peer.AddrInfo {
-	ai := peer.AddrInfo{ID: p.ID, Addrs: []multiaddr.Multiaddr{p.Addr}}
+	ai := peer.AddrInfo{ID: p.ID}
+	if p.Dead != nil {
+		ai.Addrs = append(ai.Addrs, p.Dead)
+	}
+	ai.Addrs = append(ai.Addrs, p.Addr)
 	if p.Alias != nil {
 		ai.Addrs = append(ai.Addrs, p.Alias)
 	}
 	return ai
+}
+
+// AddDead puts an address nobody listens on (connections are refused) in front of the publisher's addresses.
+func (p *Publisher) AddDead() {
+	p.Dead = multiaddr.StringCast(fmt.Sprintf("/ip4/10.0.9.%d/tcp/80/http", p.Idx+1))
+}
+
+// BadInfo is an announcement's sender information with an address no HTTP sync can use.
+func (p *Publisher) BadInfo() peer.AddrInfo {
+	return peer.AddrInfo{ID: p.ID, Addrs: []multiaddr.Multiaddr{multiaddr.StringCast(fmt.Sprintf("/ip4/10.0.8.%d/tcp/4001", p.Idx+1))}}
 }
 
 // AddAlias gives the publisher a second address (10.0.1.N:80) served by the same handler.
